@@ -35,6 +35,9 @@ class Clock:
         return float(self.now)
 
 
+COARSE = (0, 4, 6)   # indices into advances(): 0, T/2, 2T
+
+
 def ops() -> list[tuple[Any, ...]]:
     out: list[tuple[Any, ...]] = [("noop",), ("stop",), ("up",), ("down",)]
     out += [("travel", p) for p in (0, 30, 100)]
@@ -254,12 +257,13 @@ def sig_once(viols: list[tuple[str, str]]) -> list[tuple[str, str]]:
     return [(s, d) for s, d in viols if not (s in seen or seen.add(s))]
 
 
-def worker(ci: int, first: tuple[int, int], depth: int, full_depth: int) -> Part:
-    """BFS below one first event: all histories to `full_depth` unmerged, deeper ones merged by exact calculator state."""
+def worker(ci: int, first: tuple[int, int], depth: int, full_depth: int, adv_subset: tuple[int, ...] | None = None) -> Part:
+    """BFS below one first event: all histories to `full_depth` unmerged, deeper ones merged by exact calculator state.
+    `adv_subset`: only these clock advances (a coarser clock lets the same budget reach longer histories)."""
     part = Part()
     cfg = CONFIGS[ci]
     nA, nO = len(advances(cfg)), len(ops())
-    events = [(a, o) for a in range(nA) for o in range(nO)]
+    events = [(a, o) for a in (range(nA) if adv_subset is None else adv_subset) for o in range(nO)]
     seen: set[Any] = set()
     frontier = [(first,)]
     level = 1
@@ -308,6 +312,7 @@ def run(ctx: Ctx) -> None:
         f"<= {depth} for {len(CONFIGS)} travel-time configurations (3 dyadic ones compared exactly, 1 with 1e-6 tolerance), merged by exact calculator state (fields + time since the last known position) beyond depth "
         f"{full_depth}; every query method is called before and after every command at that clock reading. Oracle = rational reference stepped in lock-step: never raises, unknown or an integer between last known "
         "position and target, within <1 of the linear travel position, equal to the target once the travel time has elapsed, never moving away from the target, and the boolean queries agree with the estimate. "
+        f"Plus ALL histories of length <= {depth + 2} on a coarser clock (advance 0, T/2 or 2T), merged by state beyond depth 2. "
         "The same through the real Cover device (command and bus events, all sequences to depth 2/3), plus arrival times for every Cover option set (invert_updown / invert_position x symmetric and asymmetric travel times) x start position x command."
     )
     ctx.bounds = {"depth": depth, "configs": len(CONFIGS), "events_per_state": len(ops()) * 7}
@@ -317,6 +322,11 @@ def run(ctx: Ctx) -> None:
             for o in range(len(ops())):
                 units.append((ci, (a, o), depth, full_depth))
     ctx.pmap(worker, units)
+    # longer histories on a coarser clock (advance 0, T/2 or 2T): a fault that needs four or five commands in a row (travel, report
+    # at the target, another report, ...) is out of reach of depth 3
+    deep = depth + 2
+    ctx.bounds["coarse_clock_depth"] = deep
+    ctx.pmap(worker, [(ci, (a, o), deep, 2, COARSE) for ci in range(len(CONFIGS)) for a in COARSE for o in range(len(ops()))])
     try:
         from .. import cover40 as c40_cover  # noqa: F401
 
